@@ -889,7 +889,16 @@ class Interp:
         cj, bj = P["cond_jaxpr"], P["body_jaxpr"]
         active = True
         for it in range(self.while_bound + 1):
-            c = self.run(cj.jaxpr, cj.consts, cconsts + carry)[0][()]
+            c = self.run(cj.jaxpr, cj.consts, cconsts + carry)[0]
+            if getattr(c, "ndim", 0) > 0:
+                # vmapped while_loop with a batched predicate (JAX keeps the predicate batched; the lowering reduces it with `or`, and
+                # the batched body already selects per lane): the loop runs while ANY lane's predicate holds
+                anyc = False
+                for x in c.reshape(-1):
+                    anyc = self.o.lor(anyc, x)
+                c = anyc
+            else:
+                c = c[()]
             active = self.o.land(active, c)
             if active is False:
                 return carry
